@@ -17,6 +17,7 @@ import (
 	"time"
 	. "vh/kit"
 
+	"github.com/notaryproject/notation-core-go/revocation"
 	revresult "github.com/notaryproject/notation-core-go/revocation/result"
 	"github.com/notaryproject/notation-core-go/signature"
 	nx509 "github.com/notaryproject/notation-core-go/x509"
@@ -304,6 +305,45 @@ func classify(msg string, chain, tsaChain []string) (string, string) {
 	return "(WSigTime 998%N)", "UNRECOGNISED: " + msg
 }
 
+// tsRev is the scripted revocation validator for TSA chains: it answers with
+// one result per certificate of the chain it is asked about.
+type tsRev struct {
+	vec     []int
+	short   int
+	err     error
+	calls   [][]*x509.Certificate
+	timeSet bool
+}
+
+func (r *tsRev) vector(n int) []int {
+	vec := append([]int(nil), r.vec...)
+	if len(vec) > n {
+		vec = vec[:n]
+	}
+	for len(vec) < n {
+		vec = append(vec, 0)
+	}
+	if r.short > 0 && r.short < len(vec) {
+		vec = vec[:len(vec)-r.short]
+	}
+	return vec
+}
+
+func (r *tsRev) ValidateContext(ctx context.Context, o revocation.ValidateContextOptions) ([]*revresult.CertRevocationResult, error) {
+	r.calls = append(r.calls, o.CertChain)
+	if !o.AuthenticSigningTime.IsZero() {
+		r.timeSet = true
+	}
+	if r.err != nil {
+		return nil, r.err
+	}
+	var out []*revresult.CertRevocationResult
+	for _, k := range r.vector(len(o.CertChain)) {
+		out = append(out, &revresult.CertRevocationResult{Result: c06Result(k)})
+	}
+	return out, nil
+}
+
 func secs(t, base time.Time) int64 {
 	d := t.Sub(base)
 	if d%time.Second != 0 {
@@ -465,39 +505,24 @@ func runC06(a *Args) error {
 			roots = nil
 		}
 		facts := askTSA(si.UnsignedAttributes.TimestampSignature, si.Signature, roots)
-		// --- revocation validator for the TSA chain
-		var results []*revresult.CertRevocationResult
-		var revTerm string
+		// --- revocation validator for the TSA chain: one result per certificate of the chain it is asked about
 		tsaLen := len(facts.chain)
 		if tsaLen == 0 {
 			tsaLen = 2
 		}
-		vec := c.Tok.Rev
-		if vec == nil {
-			vec = make([]int, tsaLen)
-		}
-		if len(vec) > tsaLen {
-			vec = vec[:tsaLen]
-		}
-		for len(vec) < tsaLen {
-			vec = append(vec, 0)
-		}
-		if c.Tok.RevShort > 0 && c.Tok.RevShort < len(vec) {
-			vec = vec[:len(vec)-c.Tok.RevShort]
-		}
-		var verr error
+		rv := &tsRev{vec: c.Tok.Rev, short: c.Tok.RevShort}
+		var revTerm string
 		if c.Tok.RevErr {
-			verr = errors.New("mock timestamping revocation failure")
+			rv.err = errors.New("mock timestamping revocation failure")
 			revTerm = "VErr"
 		} else {
+			vec := rv.vector(tsaLen)
 			items := make([]string, len(vec))
 			for i, k := range vec {
-				results = append(results, &revresult.CertRevocationResult{Result: c06Result(k)})
 				items[i] = c06ResNames[k]
 			}
 			revTerm = CApp("VRes", CList(items))
 		}
-		script, revCalls := NewRevScript(results, verr)
 		// --- policy
 		natural := map[string]string{"strict": "Enforce", "permissive": "Log", "audit": "Log"}[c.Level]
 		override := map[trustpolicy.ValidationType]trustpolicy.ValidationAction{trustpolicy.TypeRevocation: trustpolicy.ActionSkip}
@@ -509,13 +534,24 @@ func runC06(a *Args) error {
 			override[trustpolicy.TypeAuthenticTimestamp] = act[c.ATs]
 		}
 		doc := OCIPolicy(c.Level, override, c.Stores, []string{"*"}, trustpolicy.TimestampOption(c.Opt))
-		v, err := verifier.NewVerifierWithOptions(store, verifier.VerifierOptions{OCITrustPolicy: doc, RevocationTimestampingValidator: script.Validator()})
+		v, err := verifier.NewVerifierWithOptions(store, verifier.VerifierOptions{OCITrustPolicy: doc, RevocationTimestampingValidator: rv})
 		if err != nil {
 			panic(fmt.Sprintf("c06: verifier construction: %v", err))
 		}
 		before := time.Now()
-		outcome, verr2 := v.Verify(context.Background(), desc, env, notation.VerifierVerifyOptions{ArtifactReference: TestRef, SignatureMediaType: c.Format})
+		var outcome *notation.VerificationOutcome
+		var verr2 error
+		panicked := func() (p any) {
+			defer func() { p = recover() }()
+			outcome, verr2 = v.Verify(context.Background(), desc, env, notation.VerifierVerifyOptions{ArtifactReference: TestRef, SignatureMediaType: c.Format})
+			return nil
+		}()
 		after := time.Now()
+		if panicked != nil {
+			c.ObsTs = fmt.Sprintf("PANIC: %v", panicked)
+			w.ImplViolation(my, "verifier.Verify panicked: "+fmt.Sprint(panicked), c, "")
+			return
+		}
 		if after.Sub(base) > 20*time.Minute {
 			panic("c06: a case took more than 20 minutes; times are no longer hours away from now")
 		}
@@ -553,10 +589,13 @@ func runC06(a *Args) error {
 		}
 		c.Rejected = verr2 != nil
 		// the revocation validator must have been asked about the TSA chain the oracle found, and nothing else
-		for _, k := range *revCalls {
-			if strings.Join(Subjects(k.Chain), "|") != strings.Join(tsaSubj, "|") || k.TimeSet {
-				w.ImplViolation(my, "timestamping revocation validator called with another chain than the verified TSA chain (or with a signing time)", c, "")
+		for _, k := range rv.calls {
+			if strings.Join(Subjects(k), "|") != strings.Join(tsaSubj, "|") {
+				w.ImplViolation(my, "timestamping revocation validator asked about another chain than the TSA chain verified under the policy's tsa stores", c, "")
 			}
+		}
+		if rv.timeSet {
+			w.ImplViolation(my, "timestamping revocation validator called with a signing time", c, "")
 		}
 		// --- input term
 		certTerms := make([]string, n)
